@@ -71,6 +71,46 @@ PINNED_SIGNATURES = {
 }
 
 
+# the PUBLIC entry points: their signature is part of the behaviour callers see (positional order, defaults)
+PUBLIC_SIGNATURES = ("imaging_utils.unwrap_phase_2d_torch", "direct_ptycho_utils.unwrap_bf_overlap_phase_torch")
+
+# names of quantem-PRIVATE helpers / internals the internal-stage streams look at.  Every one of them is resolved
+# defensively (growth 5): a helper that was renamed, inlined, merged or given other parameter names only switches the
+# internal-stage stream that needs it off (noted in the evidence); the public-API streams decide.
+NOTES = {}
+
+
+def note(ctx, key, text):
+    """a remark for the evidence (ctx.extra), never an alarm"""
+    ctx.dist[f"note:{key}"] += 1
+    lst = ctx.extra.setdefault("internal_stage_notes", [])
+    if key not in NOTES.setdefault(id(ctx), set()):
+        NOTES[id(ctx)].add(key)
+        lst.append(f"{key}: {text}")
+
+
+def priv(ctx, mod, name):
+    """a private helper of a quantem module, or None (noted) when the current source has no such name"""
+    obj = mod
+    for part in name.split("."):
+        obj = getattr(obj, part, None)
+        if obj is None:
+            note(ctx, f"missing:{name}", "private helper not present in the current source; the internal-stage streams that use it are skipped")
+            return None
+    return obj
+
+
+def call_helper(ctx, name, fn, args, kwargs_form):
+    """call a private helper in keyword form when the case asks for it; parameter NAMES of private helpers are not part
+    of the behaviour, so a TypeError from the keyword form falls back to the positional form (noted)"""
+    if kwargs_form is not None:
+        try:
+            return fn(**kwargs_form)
+        except TypeError:
+            note(ctx, f"keyword-form:{name}", "private helper does not take the pinned parameter names; called positionally")
+    return fn(*args)
+
+
 def check_signatures(ctx):
     import inspect
     from quantem.core.utils import imaging_utils
@@ -91,9 +131,12 @@ def check_signatures(ctx):
         ctx.count()
         ctx.dist["signatures:checked"] += 1
         if got != [tuple(x) for x in want]:
-            disagree(ctx, "signature", {"stream": "signature", "function": name}, [list(x) for x in want],
-                     [list(x) for x in got] if isinstance(got, list) else got,
-                     note="parameter order / kind / default of an anchored function differs from the pinned signature")
+            if name in PUBLIC_SIGNATURES:
+                disagree(ctx, "signature", {"stream": "signature", "function": name}, [list(x) for x in want],
+                         [list(x) for x in got] if isinstance(got, list) else got,
+                         note="parameter order / kind / default of a PUBLIC anchored function differs from the pinned signature")
+            else:
+                note(ctx, f"signature:{name}", f"private helper signature differs from the recorded one (now {got}); not an alarm")
 
 
 LAYOUTS = ["C", "C", "T", "F", "colstep", "rowstep", "permute3"]
@@ -114,6 +157,7 @@ def call_classes(case, helpers=False):
     case["mask_layout"] = r.choice(LAYOUTS)
     case["mask_dtype"] = "bool" if helpers else r.choice(MASK_DTYPES)   # the private helpers index with the mask: bool only
     case["call"] = r.choice(["keyword", "positional"])
+    case["grad"] = "none" if helpers else r.choice(["none", "none", "none", "leaf", "nonleaf"])
     return case
 
 
@@ -141,18 +185,28 @@ def lay(t, layout, fill=7):
         big = torch.full((W, 2, H), fill).to(t.dtype)
         big[:, 1, :] = t.T
         v = big.permute(2, 1, 0)[:, 1, :]
-    assert v.shape == t.shape and bool((v == t).all())
+    assert v.shape == t.shape and bool(((v == t) | ((v != v) & (t != t))).all())
     return v
 
 
+TRUE_VALUES = {"uint8": [1, 2, 255, 7], "int64": [1, -1, 3, 1 << 40], "float32": [1.0, 0.5, -1.0, float("inf"), 1e-30, float("nan")]}
+
+
 def mask_tensor(maskl, H, W, case):
+    """the mask as a tensor of the case's dtype / memory layout.  Non-bool masks go through `.to(torch.bool)` in the
+    code: every non-zero value (2, 255, -1, 0.5, 1e-30, inf, nan) means True, 0 and -0.0 mean False — the value
+    classes are spread deterministically over the pixels"""
     import torch
     if maskl is None:
         return None
-    m = torch.tensor(maskl, dtype=torch.bool).reshape(H, W)
     md = case.get("mask_dtype", "bool")
-    if md != "bool":
-        m = m.to({"uint8": torch.uint8, "float32": torch.float32, "int64": torch.int64}[md])
+    if md == "bool":
+        m = torch.tensor(maskl, dtype=torch.bool).reshape(H, W)
+    else:
+        tv = TRUE_VALUES[md]
+        vals = [(tv[i % len(tv)] if v else (-0.0 if (md == "float32" and i % 2) else 0)) for i, v in enumerate(maskl)]
+        m = torch.tensor(vals, dtype={"uint8": torch.uint8, "float32": torch.float32, "int64": torch.int64}[md]).reshape(H, W)
+        assert m.to(torch.bool).flatten().tolist() == [bool(v) for v in maskl]
     return lay(m, case.get("mask_layout", "C"), fill=1)
 
 
@@ -374,13 +428,13 @@ def gen_target(rng):
     return rng.uniform(0.6, 0.97) if rng.chance(0.8) else rng.uniform(0.1, 0.6)
 
 
-def gen_unwrap_case(rng, small=False):
-    H, W = gen_shape(rng, small)
+def gen_unwrap_case(rng, small=False, shape=None, wrap=None, mkind=None, modes=None):
+    H, W = shape or gen_shape(rng, small)
     N = H * W
-    wrap = rng.chance(0.5)
-    mkind = rng.weighted(MASK_KINDS)
+    wrap = rng.chance(0.5) if wrap is None else wrap
+    mkind = mkind or rng.weighted(MASK_KINDS)
     mask = gen_mask(rng, H, W, mkind)
-    mode = rng.weighted([("wrapped", 6), ("zero2pi", 2), ("window", 1), ("partial", 1), ("unwrapped", 2), ("raw", 2)])
+    mode = rng.weighted(modes or [("wrapped", 6), ("zero2pi", 2), ("window", 1), ("partial", 1), ("unwrapped", 2), ("raw", 2)])
     dtype = rng.choice(["float32", "float64"])
     pairs = used_pairs(H, W, mask, wrap)
     if mode == "raw":
@@ -440,39 +494,80 @@ def _iu():
 
 
 class Recorder:
-    """records what the real `_build_edges` / `_final_offsets` returned during an end-to-end call"""
+    """records what the real code does during an end-to-end call.
+    PUBLIC: the calls of `unwrap_phase_2d_torch` (module attribute of imaging_utils and the name imported into
+    direct_ptycho_utils) — how many unwrapping passes ran.
+    INTERNAL (private names, resolved defensively): what `_build_edges` / `_final_offsets` returned.  When a helper is
+    gone, no longer called, or returns something else, nothing is recorded for it and the caller falls back to the
+    public-API comparison (`complete()` says whether every pass left an edge list)."""
 
-    def __init__(self, iu):
+    def __init__(self, iu, ctx=None):
         self.iu = iu
+        self.ctx = ctx
         self.edges = []
         self.ufs = []
         self.incs = []
+        self.passes = 0
+        self.broken = False
 
     def __enter__(self):
         iu = self.iu
-        self.orig = (getattr(iu, "_build_edges", None), getattr(iu, "_final_offsets", None))
-        ob, of = self.orig
-        if ob is not None:
+        self.saved = []
+        ob, of = getattr(iu, "_build_edges", None), getattr(iu, "_final_offsets", None)
+        if callable(ob):
             def be(*a, **k):
                 r = ob(*a, **k)
-                self.edges.append([[int(x), int(y), int(z)] for x, y, z in zip(r[0].tolist(), r[1].tolist(), r[2].tolist())])
+                try:
+                    self.edges.append([[int(x), int(y), int(z)] for x, y, z in zip(r[0].tolist(), r[1].tolist(), r[2].tolist())])
+                except Exception:  # noqa  (another return convention: internal stage not available)
+                    self.broken = True
                 return r
+            self.saved.append((iu, "_build_edges", ob))
             iu._build_edges = be
-        if of is not None:
-            def fo(uf):
-                r = of(uf)
-                self.ufs.append(uf_state(uf))
-                self.incs.append(r.tolist())
+        if callable(of):
+            def fo(uf, *a, **k):
+                r = of(uf, *a, **k)
+                try:
+                    st = uf_state(uf)
+                    inc = as_int_list(r.tolist())
+                    self.ufs.append(st)
+                    self.incs.append(inc)
+                except Exception:  # noqa
+                    self.broken = True
                 return r
+            self.saved.append((iu, "_final_offsets", of))
             iu._final_offsets = fo
+        # the public dispatcher, under both names the anchored code reaches it by
+        try:
+            from quantem.diffractive_imaging import direct_ptycho_utils as dpu
+        except Exception:  # noqa
+            dpu = None
+        orig = getattr(iu, "unwrap_phase_2d_torch", None)
+        if callable(orig):
+            def counted(*a, **k):
+                self.passes += 1
+                return orig(*a, **k)
+            self.saved.append((iu, "unwrap_phase_2d_torch", orig))
+            iu.unwrap_phase_2d_torch = counted
+            if dpu is not None and getattr(dpu, "unwrap_phase_2d_torch", None) is orig:
+                self.saved.append((dpu, "unwrap_phase_2d_torch", orig))
+                dpu.unwrap_phase_2d_torch = counted
         return self
 
     def __exit__(self, *a):
-        if self.orig[0] is not None:
-            self.iu._build_edges = self.orig[0]
-        if self.orig[1] is not None:
-            self.iu._final_offsets = self.orig[1]
+        for mod, name, orig in reversed(self.saved):
+            setattr(mod, name, orig)
         return False
+
+    def complete(self, passes=None):
+        """did every unwrapping pass leave an edge list and final offsets (internal stages observable)?"""
+        want = self.passes if passes is None else passes
+        ok = (not self.broken) and len(self.edges) == want and len(self.incs) == want and len(self.ufs) == want
+        if not ok and self.ctx is not None:
+            note(self.ctx, "internal-stages-unobservable",
+                 "the run did not go through observable `_build_edges` / `_final_offsets` calls (renamed / inlined / other return "
+                 "convention): edge-set, union-find and merge-order comparisons skipped, public-API comparison used instead")
+        return ok
 
 
 def as_int_list(xs):
@@ -481,8 +576,28 @@ def as_int_list(xs):
 
 
 def uf_state(uf):
-    return {"parent": [int(v) for v in uf.parent.tolist()], "rank": [int(v) for v in uf.rank.tolist()],
-            "offset": as_int_list(uf.offset.tolist())}
+    """the internal arrays of a `UnionFindPhase` object (attribute names are internals: AttributeError when renamed)"""
+    return {"parent": [int(v) for v in list(uf.parent.tolist())], "rank": [int(v) for v in list(uf.rank.tolist())],
+            "offset": as_int_list(list(uf.offset.tolist()))}
+
+
+def compare_uf(ctx, stream, case, model, impl, what):
+    """union-find comparison: the final offsets (`incs`, what the unwrapper uses) decide; the internal arrays
+    parent / rank / offset are an internal representation — when they differ while the offsets agree (path compression,
+    another rank convention) that is noted in the evidence, not alarmed on"""
+    if not isinstance(model, dict) or not isinstance(impl, dict) or "incs" not in model or "incs" not in impl:
+        if model != impl:
+            disagree(ctx, stream, case, model, impl, note=what)
+        return
+    if model["incs"] != impl["incs"]:
+        disagree(ctx, stream, case, model, impl, note=what + " (final offsets)")
+        return
+    for k in ("parent", "rank", "offset"):
+        if k in impl and impl[k] is not None and model.get(k) != impl[k]:
+            ctx.dist[f"{stream}:internal-array-differs:{k}"] += 1
+            note(ctx, f"uf-internal:{k}", f"`{k}` array differs from the model's while all final offsets agree (internal representation)")
+            return
+    ctx.dist[f"{stream}:internal-arrays-equal"] += 1
 
 
 def err_name(e):
@@ -573,32 +688,86 @@ def close(impl, model, tol):
     return d / scale, d <= tol * scale and len(impl) == len(model)
 
 
-def eval_unwrap_case(ctx, drv, case, report_case=None):
+def public_compare(ctx, drv, stream, case, small_case, H, W, wrap, w, maskl, out, lab, smooth, tol):
+    """public-API correspondence when the merge order of the real run is not observable: the model sorts the edges
+    itself (`unwrapReliability`).  `argsort` ties are free, so the two runs may pick different roots: for ANY input the
+    difference impl - model must be in 2*pi*Z plus one constant, and for Itoh-smooth input (where the result does not
+    depend on the order, theorem unwrap_correct_any_sort) that integer must be constant on every connected mask region"""
+    m = drv.ask({"op": "session", "calls": [{"method": "reliability-sorting", "phi_shape": [H, W], "phi": [rat(x) for x in w],
+                                             "mask": maskl, "mask_shape": [H, W], "wrap": wrap, "order": None}]})
+    if "driver" in str(m.get("err", "")):
+        raise RuntimeError(f"driver error {m}")
+    mo = (m.get("ok") or [{}])[0]
+    ctx.dist[f"{stream}:public-comparison"] += 1
+    if "out" not in mo:
+        disagree(ctx, stream, small_case, mo, "a result", note="model (own sort) has no result where the implementation has one")
+        return
+    model_out = [float(Fr(x)) * math.pi for x in mo["out"]]
+    if len(model_out) != len(out):
+        disagree(ctx, stream, small_case, len(model_out), len(out), note="number of output values")
+        return
+    two_pi = 2 * math.pi
+    idx = [i for i in range(len(out)) if lab[i] >= 0]
+    if not idx:
+        return
+    d0 = (out[idx[0]] - model_out[idx[0]]) / two_pi
+    per = {}
+    worst = 0.0
+    for i in idx:
+        d = (out[i] - model_out[i]) / two_pi - d0
+        worst = max(worst, abs(d - round(d)))
+        per.setdefault(lab[i], set()).add(round(d))
+    scale = max(1.0, max(abs(v) for v in model_out)) / two_pi
+    if worst > tol * scale + 1e-3:
+        disagree(ctx, stream, small_case, model_out[:12], out[:12], note=f"impl - model (own sort) is not in 2*pi*Z + c: worst fractional part {worst:.3g}")
+    elif smooth and any(len(v) > 1 for v in per.values()):
+        c = sorted(k for k, v in per.items() if len(v) > 1)[0]
+        disagree(ctx, stream, small_case, model_out[:12], out[:12],
+                 note=f"smooth input: impl - model (own sort) not constant on mask region {c}: {sorted(per[c])[:5]} (x 2*pi)")
+
+
+def grad_class(phi, cls):
+    """the same values as a tensor that takes part in autograd: a leaf that requires grad, or a non-leaf result"""
+    if cls == "leaf" and phi.is_floating_point():
+        return phi.detach().requires_grad_(True)      # same strides / storage: the memory-layout class is kept
+    if cls == "nonleaf" and phi.is_floating_point():
+        base = phi.detach().requires_grad_(True)
+        return base * 1
+    return phi
+
+
+def eval_unwrap_case(ctx, drv, case, report_case=None, tensors=None, stream="end-to-end"):
     import torch
     iu = _iu()
     H, W, wrap = case["H"], case["W"], case["wrap"]
     N = H * W
     call_classes(case)
     q, w, n, phi, mask = field_tensor(case)
+    if tensors is not None:      # a caller that keeps using the same tensor objects over several calls
+        phi, mask = tensors
     maskl = case["mask"]
     pairs = used_pairs(H, W, maskl, wrap)
     lab, ncomp = components(N, pairs, maskl)
     smooth = case["mode"] != "raw"
     ctx.dist[f"call:form:{case['call']}"] += 1
     ctx.dist[f"call:phi-layout:{case['layout']}"] += 1
+    ctx.dist[f"call:phi-autograd:{case.get('grad', 'none')}"] += 1
     if maskl is not None:
         ctx.dist[f"call:mask-layout:{case['mask_layout']}"] += 1
         ctx.dist[f"call:mask-dtype:{case['mask_dtype']}"] += 1
+    phi_in = grad_class(phi, case.get("grad", "none"))
     # ---- the real code
-    rec = Recorder(iu)
+    rec = Recorder(iu, ctx)
     try:
         with rec:
             if case["call"] == "positional":
-                out_t = iu.unwrap_phase_2d_torch(phi, "reliability-sorting", mask, wrap)
+                out_t = iu.unwrap_phase_2d_torch(phi_in, "reliability-sorting", mask, wrap)
             else:
-                out_t = iu.unwrap_phase_2d_torch(phi, method="reliability-sorting", mask=mask, wrap_around=wrap)
+                out_t = iu.unwrap_phase_2d_torch(phi_in, method="reliability-sorting", mask=mask, wrap_around=wrap)
         out = [float(v) for v in out_t.detach().cpu().double().flatten().tolist()]
         err = None
+        if tuple(out_t.shape) != (H, W):
+            err = f"result of shape {tuple(out_t.shape)}"
     except Exception as e:  # noqa
         out, err = None, err_name(e)
     ctx.count()
@@ -613,22 +782,24 @@ def eval_unwrap_case(ctx, drv, case, report_case=None):
     ctx.dist[f"unwrap:components:{min(ncomp, 5)}{'+' if ncomp >= 5 else ''}"] += 1
     ctx.dist[f"unwrap:really-wraps:{wraps}"] += 1
     if wraps:
-        ctx.mark(("unwrap", case["kind"], case["mkind"], wrap, case["dtype"], H, W, min(ncomp, 4), min(nrange, 6)))
+        ctx.mark((stream, case["kind"], case["mkind"], wrap, case["dtype"], H, W, min(ncomp, 4), min(nrange, 6)))
     small_case = report_case or {k: case[k] for k in ("stream", "H", "W", "wrap", "mask", "mode", "dtype", "qn", "kind", "mkind", "outside", "c",
-                                                      "layout", "mask_layout", "mask_dtype", "call") if k in case}
+                                                      "layout", "mask_layout", "mask_dtype", "call", "grad") if k in case}
     if err is not None:
         pred_fail(ctx, "unwrap-raises", f"unwrap_phase_2d_torch raised {err}", small_case, observed=err, required="a result")
-        return
+        return None
     # ---- property predicate on the implementation (independent of the model)
     check_property(ctx, small_case, "unwrap", q, w, n, out, lab, ncomp, smooth,
                    global_const=(case["mode"] == "unwrapped"))
     # ---- correspondence
     wr = [rat(x) for x in w]
     base = {"H": H, "W": W, "phi": wr, "mask": maskl, "wrap": wrap}
-    if not rec.edges or not rec.incs:
-        disagree(ctx, "anchors", small_case, "calls _build_edges and _final_offsets", {"build_edges_calls": len(rec.edges), "final_offsets_calls": len(rec.incs)},
-                     note="the end-to-end path no longer goes through the anchored helpers")
-        return
+    if not rec.complete(1):
+        # internal stages not observable (private helpers renamed / inlined): the public API decides
+        if N <= 6000:
+            public_compare(ctx, drv, stream, case, small_case, H, W, wrap, w, maskl, out, lab, smooth, TOL[case["dtype"]])
+        return {"out": out, "order": None, "w": w}
+    ctx.dist[f"{stream}:internal-stages-observed"] += 1
     redges = rec.edges[0]
     reqs = [dict(base, op="edges"),
             {"op": "uf", "N": N, "edges": redges},
@@ -647,15 +818,14 @@ def eval_unwrap_case(ctx, drv, case, report_case=None):
         disagree(ctx, "edge-set", small_case, [list(x) for x in me], [list(x) for x in ie], note="sorted (i1,i2,inc) multisets")
     # (ii) union–find on the real order
     impl_uf = dict(rec.ufs[0], incs=as_int_list(rec.incs[0]))
-    if m_uf.get("ok") != impl_uf:
-        disagree(ctx, "union-find", small_case, m_uf.get("ok", m_uf), impl_uf, note="parent/rank/offset/final offsets on the real edge order")
+    compare_uf(ctx, "union-find", small_case, m_uf.get("ok", m_uf), impl_uf, "parent/rank/offset/final offsets on the real edge order")
     # (iii) end to end
     if N > 6000:
-        return
+        return {"out": out, "order": [[a, b] for a, b, _ in redges], "w": w}
     mo = m_unw.get("ok")
     if mo is None:
         disagree(ctx, "end-to-end", small_case, m_unw, "a result")
-        return
+        return {"out": out, "order": [[a, b] for a, b, _ in redges], "w": w}
     if not mo["perm"]:
         disagree(ctx, "end-to-end", small_case, "order is a permutation of maskedPairs", "not a permutation",
                      note="the real sorted edge list is not a permutation of the model's masked neighbour pairs")
@@ -667,9 +837,10 @@ def eval_unwrap_case(ctx, drv, case, report_case=None):
     if not ok:
         disagree(ctx, "end-to-end", small_case, model_out, out, note=f"assembled output, distance/scale {dist:.3g} > {TOL[case['dtype']]}")
     if wraps:
-        ctx.sample({"stream": "end-to-end", "H": H, "W": W, "wrap_around": wrap, "field": case["kind"], "mask": case["mkind"],
+        ctx.sample({"stream": stream, "H": H, "W": W, "wrap_around": wrap, "field": case["kind"], "mask": case["mkind"],
                     "mode": case["mode"], "dtype": case["dtype"], "components": ncomp, "wrap_count_range": nrange,
                     "edges": len(redges), "first_inputs_over_pi": [str(x) for x in w[:6]]}, limit=3)
+    return {"out": out, "order": [[a, b] for a, b, _ in redges], "w": w}
 
 
 # ---------------------------------------------------------------------------------------
@@ -691,15 +862,29 @@ def eval_edges_case(ctx, drv, case):
     ctx.dist[f"edges:wrap_around:{wrap}"] += 1
     ctx.dist[f"edges:mask:{'none' if mask is None else 'given'}"] += 1
     ctx.dist[f"edges:shape:{'degenerate' if min(H, W) <= 2 else 'regular'}"] += 1
+    be = priv(ctx, iu, "_build_edges")
+    if be is None:
+        ctx.dist["edges:skipped:no-_build_edges"] += 1
+        return
     try:
-        if case["call"] == "positional":
-            i1, i2, inc = iu._build_edges(phi, rel, mask, wrap)
-        else:
-            i1, i2, inc = iu._build_edges(phi=phi, reliability=rel, mask=mask, wrap_around=wrap)
-        impl = sorted(zip(i1.tolist(), i2.tolist(), inc.tolist()))
-        impl = [list(map(int, e)) for e in impl]
+        r = call_helper(ctx, "_build_edges", be, (phi, rel, mask, wrap),
+                        None if case["call"] == "positional" else dict(phi=phi, reliability=rel, mask=mask, wrap_around=wrap))
+    except TypeError:
+        note(ctx, "call:_build_edges", "private helper no longer takes (phi, reliability, mask, wrap_around); direct edge-set stream skipped")
+        ctx.dist["edges:skipped:other-parameters"] += 1
+        return
     except Exception as e:  # noqa
+        r = None
         impl = {"err": err_name(e)}
+    if r is not None:
+        try:
+            i1, i2, inc = r
+            impl = sorted(zip(i1.tolist(), i2.tolist(), inc.tolist()))
+            impl = [list(map(int, e)) for e in impl]
+        except Exception:  # noqa
+            note(ctx, "return:_build_edges", "private helper no longer returns (i1, i2, inc); direct edge-set stream skipped")
+            ctx.dist["edges:skipped:other-return"] += 1
+            return
     m = drv.ask({"op": "edges", "H": H, "W": W, "phi": [rat(x) for x in w], "mask": case["mask"], "wrap": wrap})
     if "driver" in str(m.get("err", "")):
         raise RuntimeError(f"driver error {m}")
@@ -953,26 +1138,47 @@ def eval_order_case(ctx, drv, case):
     ctx.dist[f"order:wide-values:{case['wide']}"] += 1
     ctx.dist[f"order:mask:{case['mkind']}"] += 1
     ctx.dist[f"order:wrap_around:{wrap}"] += 1
-    rec = Recorder(iu)
+    rec = Recorder(iu, ctx)
+    pr = priv(ctx, iu, "_pixel_reliability")
+    worker = priv(ctx, iu, "_unwrap_phase_2d_torch_reliability_sorting")
+    R_impl = None
+    if pr is not None:
+        try:
+            R_impl = call_helper(ctx, "_pixel_reliability", pr, (phi, mask), None if case["call"] == "positional" else dict(phi=phi, mask=mask))
+            R_impl = [float(v) for v in R_impl.double().flatten().tolist()]
+            if len(R_impl) != N:
+                raise TypeError("shape")
+        except TypeError:
+            note(ctx, "call:_pixel_reliability", "private helper has other parameters / another return convention; reliability values not compared")
+            R_impl = None
+        except Exception as e:  # noqa
+            disagree(ctx, "reliability", case, "a result", err_name(e))
+            return
     try:
-        if case["call"] == "positional":
-            R_impl = iu._pixel_reliability(phi, mask)
-        else:
-            R_impl = iu._pixel_reliability(phi=phi, mask=mask)
-        R_impl = [float(v) for v in R_impl.double().flatten().tolist()]
         with rec:
             # the anchored worker itself, in the other call form than the dispatcher gets in the end-to-end stream
-            if case["call"] == "positional":
-                iu._unwrap_phase_2d_torch_reliability_sorting(phi, mask, wrap)
+            # (the public dispatcher when the private worker is gone)
+            if worker is not None:
+                try:
+                    call_helper(ctx, "_unwrap_phase_2d_torch_reliability_sorting", worker, (phi, mask, wrap),
+                                None if case["call"] == "positional" else dict(phi=phi, mask=mask, wrap_around=wrap))
+                except TypeError:
+                    note(ctx, "call:_unwrap_phase_2d_torch_reliability_sorting", "private worker has other parameters; public dispatcher used")
+                    iu.unwrap_phase_2d_torch(phi, "reliability-sorting", mask, wrap)
             else:
-                iu._unwrap_phase_2d_torch_reliability_sorting(phi=phi, mask=mask, wrap_around=wrap)
+                iu.unwrap_phase_2d_torch(phi, "reliability-sorting", mask, wrap)
     except Exception as e:  # noqa
         disagree(ctx, "reliability", case, "a result", err_name(e))
         return
-    if not rec.edges:
-        disagree(ctx, "anchors", case, "calls _build_edges", "not called")
-        return
-    order = [[a, b] for a, b, _ in rec.edges[0]]
+    if rec.broken or len(rec.edges) != 1:
+        rec.complete(-1)     # notes that the internal stages are not observable
+        ctx.dist["order:skipped:merge-order-unobservable"] += 1
+        if R_impl is None:
+            return
+        order = []
+    else:
+        order = [[a, b] for a, b, _ in rec.edges[0]]
+    have_order = not (rec.broken or len(rec.edges) != 1)
     m = drv.ask({"op": "reliability", "H": H, "W": W, "phi": [rat(x) for x in w], "mask": case["mask"], "wrap": wrap,
                  "order": order})
     if "driver" in str(m.get("err", "")):
@@ -983,16 +1189,19 @@ def eval_order_case(ctx, drv, case):
     model_R = [None if s is None else float(Fr(s)) * math.pi ** 2 for s in mo["R"]]
     scale = max([1.0] + [abs(v) for v in model_R if v is not None])
     worst = 0.0
-    for i in range(N):
-        if model_R[i] is None:
-            if R_impl[i] != float("inf"):
-                disagree(ctx, "reliability", case, "inf", R_impl[i], note=f"pixel {i} outside the mask")
-                break
-        else:
-            worst = max(worst, abs(R_impl[i] - model_R[i]) / scale)
-    ctx.stat_max(f"reliability:max |impl-model|/scale ({case['dtype']})", worst)
-    if worst > tol:
-        disagree(ctx, "reliability", case, model_R[:8], R_impl[:8], note=f"_pixel_reliability, distance/scale {worst:.3g} > {tol}")
+    if R_impl is not None:
+        for i in range(N):
+            if model_R[i] is None:
+                if R_impl[i] != float("inf"):
+                    disagree(ctx, "reliability", case, "inf", R_impl[i], note=f"pixel {i} outside the mask")
+                    break
+            else:
+                worst = max(worst, abs(R_impl[i] - model_R[i]) / scale)
+        ctx.stat_max(f"reliability:max |impl-model|/scale ({case['dtype']})", worst)
+        if worst > tol:
+            disagree(ctx, "reliability", case, model_R[:8], R_impl[:8], note=f"_pixel_reliability, distance/scale {worst:.3g} > {tol}")
+    if not have_order:
+        return
     # the ORDER the real sort produced: a permutation of the masked pairs, ascending in the model's exact edge reliability
     if not mo["perm"]:
         disagree(ctx, "edge-order", case, "a permutation of the masked neighbour pairs", "not a permutation")
@@ -1058,6 +1267,65 @@ def gen_uf_case(rng):
     return {"stream": "uf", "N": N, "edges": edges, "consistent": consistent, "n": nfield if consistent else None, "grid": None}
 
 
+def real_offsets(ctx, iu, uf, N):
+    """final offsets of a real union-find object: `_final_offsets(uf)` when that private helper exists, otherwise the
+    object's own `find_root_and_offset` for every pixel"""
+    fo = getattr(iu, "_final_offsets", None)
+    if callable(fo):
+        try:
+            return as_int_list(list(fo(uf).tolist()))
+        except (TypeError, AttributeError):
+            pass
+    note(ctx, "missing:_final_offsets", "final offsets read through UnionFindPhase.find_root_and_offset instead")
+    return as_int_list([float(uf.find_root_and_offset(i)[1]) for i in range(N)])
+
+
+def run_real_uf(ctx, iu, N, edges, allow_raise=False):
+    """drive a real `UnionFindPhase` object with a list of union calls.  Returns (state dict | {"err": name} | None, merges);
+    None = the class / its methods cannot be resolved in the current source (stream skipped, noted).  With allow_raise the
+    calls that raise are recorded (`raised` flags) and the history goes on."""
+    cls = priv(ctx, iu, "UnionFindPhase")
+    if cls is None or not callable(getattr(cls, "union", None)):
+        note(ctx, "missing:UnionFindPhase.union", "union-find object not resolvable; union-find streams skipped")
+        return None, 0
+    try:
+        uf = cls(N)
+    except TypeError:
+        note(ctx, "call:UnionFindPhase", "constructor no longer takes (n); union-find streams skipped")
+        return None, 0
+    merges = 0
+    raised = []
+    try:
+        for a, b, inc in edges:
+            before = None
+            try:
+                before = uf_state(uf)
+            except Exception:  # noqa
+                pass
+            try:
+                uf.union(a, b, inc)
+                raised.append(False)
+            except Exception as e:  # noqa
+                if not allow_raise:
+                    raise
+                raised.append(err_name(e))
+            if before is not None:
+                merges += int(before != uf_state(uf))
+        incs = real_offsets(ctx, iu, uf, N)
+        try:
+            impl = dict(uf_state(uf), incs=incs)
+        except Exception:  # noqa
+            note(ctx, "uf-internal:attributes", "parent / rank / offset attributes not readable; only final offsets compared")
+            impl = {"incs": incs}
+            merges = len(edges)
+        if allow_raise:
+            impl["raised"] = raised
+    except Exception as e:  # noqa
+        impl = {"err": err_name(e)}
+        merges = 0
+    return impl, merges
+
+
 def eval_uf_case(ctx, drv, case):
     iu = _iu()
     N, edges = case["N"], case["edges"]
@@ -1065,24 +1333,15 @@ def eval_uf_case(ctx, drv, case):
     ctx.dist[f"uf:consistent:{case['consistent']}"] += 1
     ctx.dist[f"uf:graph:{'grid' if case.get('grid') else 'random-multigraph'}"] += 1
     ctx.dist[f"uf:N:{'<=3' if N <= 3 else '<=12' if N <= 12 else '<=60'}"] += 1
-    try:
-        uf = iu.UnionFindPhase(N)
-        merges = 0
-        for a, b, inc in edges:
-            before = uf.parent.clone()
-            uf.union(a, b, inc)
-            merges += int((before != uf.parent).any())
-        incs = iu._final_offsets(uf)
-        impl = dict(uf_state(uf), incs=as_int_list(incs.tolist()))
-    except Exception as e:  # noqa
-        impl = {"err": err_name(e)}
-        merges = 0
+    impl, merges = run_real_uf(ctx, iu, N, edges)
+    if impl is None:
+        ctx.dist["uf:skipped:internals-not-resolvable"] += 1
+        return
     m = drv.ask({"op": "uf", "N": N, "edges": edges})
     if "driver" in str(m.get("err", "")):
         raise RuntimeError(f"driver error {m}")
     model = m.get("ok", m)
-    if model != impl:
-        disagree(ctx, "union-find", case, model, impl, note="random multigraph")
+    compare_uf(ctx, "union-find", case, model, impl, "random multigraph")
     if merges >= 3:
         ctx.mark(("uf", N, len(edges), case["consistent"], merges, bool(case.get("grid"))))
     # predicate (only for runs the unwrapper itself could perform — grid neighbour pairs, wrap-count steps in
@@ -1269,7 +1528,7 @@ def eval_bf_case(ctx, drv, case, tensors=None, collect=None):
     ctx.dist[f"call:bf_mask-layout:{case['mask_layout']}"] += 1
     kwargs = {} if case["wrap"] is None else {"wrap_around": case["wrap"]}
     wrap_eff = case["wrap"] is not False
-    rec = Recorder(iu)
+    rec = Recorder(iu, ctx)
     try:
         with rec:
             if case["call"] == "positional":
@@ -1290,20 +1549,23 @@ def eval_bf_case(ctx, drv, case, tensors=None, collect=None):
     ctx.dist[f"bf:mode:{case['mode']}"] += 1
     ctx.dist[f"bf:two_pass:{case['two_pass']}"] += 1
     ctx.dist[f"bf:wrap_around:{case['wrap']}"] += 1
-    ctx.dist[f"bf:passes-run:{len(rec.edges)}"] += 1
+    ctx.dist[f"bf:passes-run:{rec.passes}"] += 1
     small_case = dict(case)
     if err is not None:
         pred_fail(ctx, "bf-raises", f"unwrap_bf_overlap_phase_torch raised {err}", small_case, observed=err, required="a result")
         return
-    if wraps and rec.edges:
+    if wraps and rec.passes:
         ctx.mark(("bf", case["kind"], case["mkind"], case["two_pass"], case["wrap"], H, W, min(ncomp, 4)))
     # ---- predicate: on the overlap-mask pixels the result is the truth up to a constant per component
     only = [bool(mgrid[i]) for i in pos]      # the claim is about the overlap-mask pixels
     sub = lambda xs: [xs[i] for i in pos]  # noqa
     check_property(ctx, small_case, "bf", sub(q), sub(w), sub(n), out, sub(lab), ncomp, case["mode"] == "smooth", only=only)
-    # ---- correspondence
-    o1 = [[a, b] for a, b, _ in rec.edges[0]] if len(rec.edges) >= 1 else []
-    o2 = [[a, b] for a, b, _ in rec.edges[1]] if len(rec.edges) >= 2 else []
+    # ---- correspondence.  The number of passes is observed at the PUBLIC dispatcher; the merge orders of the passes are
+    # internal stages (private `_build_edges`): without them the model cannot be run on the same order, and the branch
+    # (public) plus the predicate above decide
+    observable = rec.complete()
+    o1 = [[a, b] for a, b, _ in rec.edges[0]] if observable and len(rec.edges) >= 1 else []
+    o2 = [[a, b] for a, b, _ in rec.edges[1]] if observable and len(rec.edges) >= 2 else []
     m = drv.ask({"op": "bf", "H": H, "W": W, "bf_mask": bf, "mask_bf": [int(mgrid[i]) for i in pos],
                  "phase": [rat(w[i]) for i in pos], "two_pass": case["two_pass"], "order1": o1, "order2": o2,
                  "wrap": wrap_eff})
@@ -1313,13 +1575,16 @@ def eval_bf_case(ctx, drv, case, tensors=None, collect=None):
     if mo is None:
         disagree(ctx, "bf-overlap", small_case, m, "a result")
         return
-    branch_impl = {0: None, 1: "onePass", 2: "twoPass"}[min(len(rec.edges), 2)]
+    branch_impl = {0: None, 1: "onePass", 2: "twoPass"}[min(rec.passes, 2)]
     if branch_impl is None:
         if mo["branch"] not in ("noMask", "smallRange"):
             disagree(ctx, "bf-overlap", small_case, mo["branch"], "no unwrapping pass ran", note="branch")
     elif mo["branch"] != branch_impl:
         disagree(ctx, "bf-overlap", small_case, mo["branch"], branch_impl, note="branch")
     ctx.dist[f"bf:branch:{mo['branch']}"] += 1
+    if not observable and rec.passes:
+        ctx.dist["bf:skipped:merge-order-unobservable"] += 1
+        return
     if not mo.get("perm1", True) or not mo.get("perm2", True):
         disagree(ctx, "bf-overlap", small_case, "orders are permutations of maskedPairs", [mo.get("perm1"), mo.get("perm2")])
     model_out = [float(Fr(s)) * math.pi for s in mo["out"]]
@@ -1330,16 +1595,392 @@ def eval_bf_case(ctx, drv, case, tensors=None, collect=None):
     if collect is not None:
         collect.append({"mask_bf": [int(mgrid[i]) for i in pos], "phase": [rat(w[i]) for i in pos], "order1": o1, "order2": o2,
                         "out": out, "model_out": mo["out"]})
-    if wraps and rec.edges:
+    if wraps and rec.passes:
         ctx.sample({"stream": "bf-overlap", "H": H, "W": W, "bf_pixels": len(pos), "overlap_pixels": sum(mgrid),
                     "two_pass": case["two_pass"], "wrap_around": case["wrap"], "branch": mo["branch"], "components": ncomp}, limit=5)
+
+
+# ---------------------------------------------------------------------------------------
+# HISTORIES of calls (growth 5): rejected / raising calls between valid ones — on the module (which must keep no state
+# between calls: Model/UnwrapSession.lean `runSession`, theorem session_exception_safe), on one UnionFindPhase object
+# (a rejected union leaves the arrays untouched: `ufHistory`, theorem uf_history_invariant) and on the bright-field
+# function (`unwrapBfOverlapM`, theorem bf_args_spec).  EVERY valid call of a history is evaluated exactly like a
+# stand-alone case (property predicate with the independent oracle + correspondence with the model).
+
+# rejected calls whose exception is an explicit `raise` of the anchored code: the TYPE is compared with the model.  The
+# other kinds are malformed arguments whose rejection is incidental (torch indexing / broadcasting / unpacking): whether
+# and how they raise is recorded and noted, never alarmed on; what matters is every valid call after them.
+EXPLICIT_REJECTS = ("method-unknown", "method-none", "poisson-bounded")
+REJECT_KINDS = ["mask-row", "mask-1xW", "mask-Hx1", "mask-1x1", "mask-0d", "mask-nobroadcast", "mask-flat", "mask-3d",
+                "method-unknown", "method-none", "phi-1d", "phi-3d", "poisson-bounded", "fault", "fault", "fault"]
+FAULT_AT = [1, 2, 4, 7, 11, 16, 22, 29, 37, 46, 56, 70, 90, 120, 170, 250, 400]
+_FAULTY = {}
+
+
+def faulty_classes():
+    """a torch.Tensor subclass whose k-th torch operation raises: fault injection through the PUBLIC argument only (no
+    private name is touched) — `phi` handed over as such a tensor makes the call fail part-way, wherever the k-th
+    operation on phi-derived tensors happens to be (reliability, edge building, union loop, assembly)"""
+    if not _FAULTY:
+        import torch
+
+        class InjectedFault(RuntimeError):
+            pass
+
+        class FaultyTensor(torch.Tensor):
+            state = {"left": None, "calls": 0}
+
+            @classmethod
+            def __torch_function__(cls, func, types, args=(), kwargs=None):
+                st = cls.state
+                st["calls"] += 1
+                if st["left"] is not None:
+                    st["left"] -= 1
+                    if st["left"] <= 0:
+                        st["left"] = None
+                        raise InjectedFault("injected fault")
+                return super().__torch_function__(func, types, args, kwargs or {})
+
+        _FAULTY["t"], _FAULTY["e"] = FaultyTensor, InjectedFault
+    return _FAULTY["t"], _FAULTY["e"]
+
+
+def history_shapes():
+    return [(h, w) for d in range(1, 12) for h in range(2, 14) for w in (h + d, h - d) if 2 <= w <= 13]
+
+
+def gen_history(rng, hidx):
+    """one history on a grid shape of its own (H != W, both >= 2; enumerated, not drawn: whatever a call may leave behind
+    in the module — and whatever that is keyed by — the first call of the history is the first call of the process on that
+    grid).  Fixed blocks: the reject kind, the wrap_around setting of the rejected call and the template (rejected call
+    first / after a valid call) are enumerated from the history index, so the coverage does not depend on the seed."""
+    shapes = history_shapes()
+    H, W = shapes[hidx % len(shapes)]
+    kind = REJECT_KINDS[hidx % len(REJECT_KINDS)]
+    wrap0 = bool((hidx // len(REJECT_KINDS)) % 2)
+    template = (hidx // (2 * len(REJECT_KINDS))) % 3
+    modes = [("wrapped", 6), ("zero2pi", 1), ("unwrapped", 1), ("raw", 1)]
+    mk = [("none", 3), ("rect", 1), ("annulus", 1), ("multi", 2), ("blobs", 2), ("border", 2), ("alltrue", 1)]
+
+    def valid(wrap, masked, reuse=None):
+        if reuse is not None:
+            return {"op": "valid", "reuse": reuse}
+        c = gen_unwrap_case(rng.fork(len(steps) + 17), shape=(H, W), wrap=wrap, mkind=("none" if not masked else rng.weighted(mk[1:])),
+                            modes=modes)
+        return {"op": "valid", "case": c}
+
+    def reject(k, wrap):
+        return {"op": "reject", "kind": k, "wrap": wrap, "fault_at": FAULT_AT[(hidx // 3 + len(steps)) % len(FAULT_AT)],
+                "masked": rng.chance(0.5), "seed": rng.next()}
+
+    steps = []
+    if template == 1:
+        steps.append(valid(wrap0, rng.chance(0.5)))
+    elif template == 2:
+        steps.append(valid(not wrap0, True))
+    steps.append(reject(kind, wrap0))
+    first_valid = len(steps)
+    steps.append(valid(wrap0, rng.chance(0.4)))
+    steps.append(valid(not wrap0, rng.chance(0.6)))
+    steps.append(reject(rng.choice(REJECT_KINDS), not wrap0))
+    steps.append(valid(not wrap0, rng.chance(0.5)))
+    steps.append(valid(wrap0, True))
+    steps.append(valid(None, None, reuse=first_valid))      # the caller uses the very same tensor objects again
+    if rng.chance(0.4):
+        steps.append(reject(rng.choice(REJECT_KINDS), rng.chance(0.5)))
+        steps.append(valid(rng.chance(0.5), rng.chance(0.5)))
+    return {"stream": "history", "H": H, "W": W, "hidx": hidx, "steps": steps}
+
+
+def reject_call(iu, H, W, step):
+    """the arguments of a rejected call (and the model's description of it).  Returns (thunk, model call dict | None)"""
+    import torch
+    from qv.prng import Rng
+    r = Rng(step["seed"])
+    kind, wrap = step["kind"], step["wrap"]
+    N = H * W
+    qn = [r.randint(-DEN, DEN - 1) for _ in range(N)]
+    phi = torch.tensor([v / DEN * math.pi for v in qn], dtype=torch.float64).reshape(H, W).to(torch.float32)
+    mcall = {"method": "reliability-sorting", "phi_shape": [H, W], "phi": [rat(Fr(v, DEN)) for v in qn], "mask": None,
+             "mask_shape": None, "wrap": wrap, "order": None}
+    mshape = {"mask-row": [W], "mask-1xW": [1, W], "mask-Hx1": [H, 1], "mask-1x1": [1, 1], "mask-0d": [],
+              "mask-nobroadcast": [H + 1, W], "mask-flat": [N], "mask-3d": [1, H, W]}.get(kind)
+    if mshape is not None:
+        n = 1
+        for d in mshape:
+            n *= d
+        vals = [int(r.chance(0.8)) for _ in range(n)]
+        mask = torch.tensor(vals, dtype=torch.bool).reshape(mshape)
+        mcall.update(mask=vals, mask_shape=mshape)
+        return (lambda: iu.unwrap_phase_2d_torch(phi, "reliability-sorting", mask, wrap)), mcall
+    if kind in ("method-unknown", "method-none"):
+        meth = None if kind == "method-none" else r.choice(["reliability_sorting", "Reliability-Sorting", "herraez", "", "poisson "])
+        mcall.update(method="<None>" if meth is None else meth)
+        return (lambda: iu.unwrap_phase_2d_torch(phi, method=meth, wrap_around=wrap)), mcall
+    if kind == "phi-1d":
+        mcall.update(phi_shape=[N])
+        return (lambda: iu.unwrap_phase_2d_torch(phi.reshape(N), wrap_around=wrap)), mcall
+    if kind == "phi-3d":
+        mcall.update(phi_shape=[1, H, W])
+        return (lambda: iu.unwrap_phase_2d_torch(phi.reshape(1, H, W), wrap_around=wrap)), mcall
+    if kind == "poisson-bounded":
+        mcall.update(method="poisson", wrap=False)
+        return (lambda: iu.unwrap_phase_2d_torch(phi, method="poisson", wrap_around=False)), mcall
+    # fault: a valid call (maybe masked) whose k-th torch operation on phi raises
+    FaultyTensor, _ = faulty_classes()
+    mask = torch.tensor([r.chance(0.8) for _ in range(N)], dtype=torch.bool).reshape(H, W) if step["masked"] else None
+
+    def thunk():
+        ft = phi.as_subclass(FaultyTensor)
+        FaultyTensor.state["left"] = step["fault_at"]
+        try:
+            return iu.unwrap_phase_2d_torch(ft, "reliability-sorting", mask, wrap)
+        finally:
+            FaultyTensor.state["left"] = None
+    return thunk, None
+
+
+def eval_history_case(ctx, drv, hist):
+    import torch
+    import traceback
+    iu = _iu()
+    H, W = hist["H"], hist["W"]
+    ctx.dist["history:histories"] += 1
+    done = []          # per step: the tensors used and what came back
+    mcalls, mwhich = [], []
+    for k, step in enumerate(hist["steps"]):
+        if step["op"] == "reject":
+            thunk, mcall = reject_call(iu, H, W, step)
+            try:
+                r = thunk()
+                got = "returned"
+            except Exception as e:  # noqa
+                got = err_name(e)
+                if step["kind"] == "fault":
+                    fr = [f.name for f in traceback.extract_tb(e.__traceback__) if "/quantem/" in f.filename]
+                    ctx.dist[f"history:fault-raised-in:{fr[-1] if fr else '?'}"] += 1
+            ctx.count()
+            ctx.dist[f"history:rejected-call:{step['kind']}:{got}"] += 1
+            ctx.dist[f"history:rejected-call-position:{'first-on-this-grid' if k == 0 else 'later'}"] += 1
+            done.append({"got": got})
+            if mcall is not None:
+                mcalls.append(mcall)
+                mwhich.append(k)
+            continue
+        if "reuse" in step:
+            src = done[step["reuse"]]
+            if "case" not in src:
+                done.append({})
+                continue
+            case, tensors = src["case"], src["tensors"]
+            ctx.dist["history:valid-call:same-tensor-objects-again"] += 1
+        else:
+            case = dict(step["case"])
+            call_classes(case)
+            _, _, _, phi, mask = field_tensor(case)
+            tensors = (phi, mask)
+        before = (tensors[0].clone(), None if tensors[1] is None else tensors[1].clone())
+        rep = {"stream": "history", "H": H, "W": W, "hidx": hist["hidx"], "steps": hist["steps"][:k + 1]}
+        res = eval_unwrap_case(ctx, drv, case, report_case=rep, tensors=tensors, stream="history")
+        ctx.dist[f"history:valid-call:{'after-rejected-call' if k and hist['steps'][k - 1]['op'] == 'reject' else 'after-valid-call' if k else 'first'}"] += 1
+        same = torch.equal(before[0], tensors[0]) and (before[1] is None or torch.equal(before[1].to(torch.float64).nan_to_num(7.0),
+                                                                                        tensors[1].to(torch.float64).nan_to_num(7.0)))
+        if not same:
+            disagree(ctx, "history", rep, "arguments unchanged by the call", "phi / mask modified in place", note=f"step {k}")
+        done.append({"case": case, "tensors": tensors, "res": res})
+        if res is not None:
+            mcalls.append({"method": "reliability-sorting", "phi_shape": [H, W], "phi": [rat(x) for x in res["w"]],
+                           "mask": case["mask"], "mask_shape": [H, W], "wrap": case["wrap"], "order": res["order"]})
+            mwhich.append(k)
+    # ---- the whole history through the model's session function
+    m = drv.ask({"op": "session", "calls": mcalls})
+    if "driver" in str(m.get("err", "")):
+        raise RuntimeError(f"driver error {m}")
+    outs = m.get("ok") or []
+    small = {"stream": "history", "H": H, "W": W, "hidx": hist["hidx"], "steps": hist["steps"]}
+    if len(outs) != len(mcalls):
+        disagree(ctx, "history", small, f"{len(mcalls)} outcomes", len(outs))
+        return
+    nvalid = 0
+    for k, mo in zip(mwhich, outs):
+        step, d = hist["steps"][k], done[k]
+        if step["op"] == "reject":
+            want = mo.get("raised") or ("returned" if ("out" in mo or "poisson" in mo) else str(mo))
+            if step["kind"] in EXPLICIT_REJECTS:
+                if d["got"] != want:
+                    disagree(ctx, "history", small, want, d["got"], note=f"step {k}: rejected call {step['kind']} (explicit raise of the anchored code)")
+            elif d["got"] != want:
+                ctx.dist[f"history:malformed-argument-outcome-differs:{step['kind']}:model={want}:impl={d['got']}"] += 1
+                note(ctx, f"malformed:{step['kind']}", f"a malformed argument is handled differently from the model (model {want}, code {d['got']}); outside the documented domain, not alarmed on")
+            continue
+        res = d.get("res")
+        if res is None:
+            continue
+        nvalid += 1
+        if "out" not in mo:
+            disagree(ctx, "history", small, mo, "a result", note=f"step {k}: the model's session has no result for a valid call")
+            continue
+        if res["order"] is None:
+            continue            # merge order not observable: public_compare (inside eval_unwrap_case) has decided
+        model_out = [float(Fr(x)) * math.pi for x in mo["out"]]
+        dist, ok = close(res["out"], model_out, TOL[d["case"]["dtype"]])
+        ctx.stat_max("history:max |impl-model|/scale", dist)
+        if not ok or not mo.get("perm", True):
+            disagree(ctx, "history", small, model_out[:16], res["out"][:16], note=f"step {k}: valid call inside a history vs runSession, distance/scale {dist:.3g}")
+    if nvalid >= 3:
+        ctx.mark(("history", H, W, tuple(s.get("kind", "v") for s in hist["steps"])))
+        ctx.sample({"stream": "history", "H": H, "W": W, "steps": [s.get("kind", "valid") for s in hist["steps"]]}, limit=2)
+
+
+def replay_history(ctx, drv, case):
+    """a replayed history: the recorded prefix of steps, run from the start (the failing valid call is the last step)"""
+    eval_history_case(ctx, drv, case)
+
+
+# union calls on ONE object, rejected ones included
+
+def gen_uf_hist_case(rng):
+    N = rng.weighted([(1, 1), (2, 1), (rng.randint(3, 12), 6), (rng.randint(13, 40), 2)])
+    nfield = [rng.randint(-3, 3) for _ in range(N)]
+    edges = []
+    for _ in range(rng.randint(1, 3 * N + 2)):
+        a, b = rng.below(N), rng.below(N)
+        inc = nfield[a] - nfield[b]
+        if rng.chance(0.25):       # an index past the end, in the first or the second position
+            bad = rng.choice([N, N + 1, N + rng.randint(2, 50)])
+            if rng.chance(0.5):
+                a = bad
+            else:
+                b = bad
+            inc = rng.randint(-2, 2)
+        edges.append([a, b, inc])
+    return {"stream": "uf_hist", "N": N, "edges": edges, "n": nfield}
+
+
+def eval_uf_hist_case(ctx, drv, case):
+    iu = _iu()
+    N, edges = case["N"], case["edges"]
+    ctx.count()
+    impl, merges = run_real_uf(ctx, iu, N, edges, allow_raise=True)
+    if impl is None:
+        ctx.dist["uf_hist:skipped:internals-not-resolvable"] += 1
+        return
+    m = drv.ask({"op": "uf_hist", "N": N, "edges": edges})
+    if "driver" in str(m.get("err", "")):
+        raise RuntimeError(f"driver error {m}")
+    model = m.get("ok", m)
+    if "err" in impl or "raised" not in model:
+        disagree(ctx, "uf-history", case, model, impl)
+        return
+    nrej = sum(1 for f in model["raised"] if f)
+    ctx.dist[f"uf_hist:rejected-unions:{min(nrej, 4)}{'+' if nrej >= 4 else ''}"] += 1
+    flags = [bool(f) for f in impl["raised"]]
+    if flags != model["raised"]:
+        # whether an out-of-range index raises is incidental to the representation (torch indexing): noted only
+        ctx.dist["uf_hist:raise-pattern-differs"] += 1
+        note(ctx, "uf-history-raises", "a union call with an index past the end does not raise where the model says IndexError (or vice versa); outside the domain the unwrapper uses")
+        return
+    compare_uf(ctx, "uf-history", case, {k: model[k] for k in ("parent", "rank", "offset", "incs")},
+               {k: impl[k] for k in ("parent", "rank", "offset", "incs") if k in impl},
+               "state after a history of union calls with rejected ones (a rejected call must leave the object untouched)")
+    # predicate: the accepted increments are differences of n, so offset - n is constant on every tree of accepted edges
+    acc = [(a, b) for (a, b, _), f in zip(edges, flags) if not f]
+    lab, _ = components(N, acc, None)
+    per = {}
+    for i in range(N):
+        per.setdefault(lab[i], set()).add(impl["incs"][i] - case["n"][i])
+    bad = {c: sorted(v) for c, v in per.items() if len(v) > 1}
+    if bad:
+        c = sorted(bad)[0]
+        pred_fail(ctx, "uf-offsets", "union-find offsets inconsistent with the increment field after a history with rejected unions",
+                  case, observed=bad[c][:6], required="offset(i) - n(i) constant on each connected component of the accepted edges")
+    if nrej and merges >= 2:
+        ctx.mark(("uf_hist", N, len(edges), nrej, merges))
+
+
+# the bright-field function: rejected calls between valid ones, on one bf_mask
+
+BF_REJECTS = ["len-phase", "len-mask", "method-unknown", "method-unknown-lazy", "mask-kw", "poisson-bounded"]
+
+
+def eval_bf_history_case(ctx, drv, hist):
+    import torch
+    from quantem.diffractive_imaging import direct_ptycho_utils as dpu
+    first = hist["first"]
+    H, W, bf = first["H"], first["W"], first["bf_mask"]
+    N = H * W
+    pos = [i for i in range(N) if bf[i]]
+    bf_t = torch.tensor(bf, dtype=torch.bool).reshape(H, W)
+    ctx.dist["bf_history:histories"] += 1
+    for k, step in enumerate(hist["steps"]):
+        if step["op"] == "valid":
+            eval_bf_case(ctx, drv, step["case"])
+            ctx.dist[f"bf_history:valid-call:{'after-rejected-call' if k and hist['steps'][k - 1]['op'] == 'reject' else 'other'}"] += 1
+            continue
+        kind = step["kind"]
+        K = len(pos)
+        # phases on the pi/1024 grid: a steep alternating pattern (range > pi: a pass is needed) or a flat one (lazy branch)
+        flat = kind == "method-unknown-lazy"
+        ph = [Fr(((37 * i) % 61) - 30, 64) if flat else Fr(((613 * i + 11 * k) % 1900) - 950, 1024) for i in range(K)]
+        if not flat and K >= 2:
+            ph[0], ph[1] = Fr(-15, 16), Fr(7, 8)
+        mk = [1] * K
+        meth, kw = "reliability-sorting", {}
+        if kind == "len-phase":
+            ph = ph[:-1] if K >= 3 else ph + [Fr(0)]
+        elif kind == "len-mask":
+            mk = mk[:-1] if K >= 3 else mk + [1]
+        elif kind in ("method-unknown", "method-unknown-lazy"):
+            meth = "no-such-method"
+        elif kind == "mask-kw":
+            kw = {"mask": bf_t}
+        elif kind == "poisson-bounded":
+            meth, kw = "poisson", {"wrap_around": False}
+        ang = torch.tensor([float(x) * math.pi for x in ph], dtype=torch.float64)
+        data = torch.polar(torch.ones_like(ang), ang).to(torch.complex64)
+        mask_bf = torch.tensor(mk, dtype=torch.bool)
+        try:
+            dpu.unwrap_bf_overlap_phase_torch(data, mask_bf, bf_t, method=meth, two_pass=step["two_pass"], **kw)
+            got = "returned"
+        except Exception as e:  # noqa
+            got = err_name(e)
+        ctx.count()
+        ctx.dist[f"bf_history:rejected-call:{kind}:{got}"] += 1
+        if kind == "mask-kw":
+            continue          # Python's own duplicate-keyword TypeError; not part of the model
+        m = drv.ask({"op": "bfm", "H": H, "W": W, "bf_mask": bf, "mask_bf": mk, "phase": [rat(x) for x in ph], "two_pass": step["two_pass"],
+                     "order1": [], "order2": [], "wrap": kw.get("wrap_around", True), "method": meth})
+        if "driver" in str(m.get("err", "")):
+            raise RuntimeError(f"driver error {m}")
+        mo = m.get("ok", m)
+        want = mo.get("raised") or ("returned" if ("branch" in mo or "poisson" in mo) else str(mo))
+        small = {"stream": "bf_history", "first": first, "steps": hist["steps"][:k + 1]}
+        if kind in ("method-unknown", "method-unknown-lazy", "poisson-bounded"):
+            if want != "returned" and got != want:
+                disagree(ctx, "bf-history", small, want, got, note=f"step {k}: {kind}: the model raises (explicit raise of the anchored code)")
+            elif want == "returned" and got != want:
+                note(ctx, f"bf-lazy:{kind}", f"`method` is validated lazily in the model (no pass needed -> accepted); the code says {got}: eager validation, not alarmed on")
+        elif got != want:
+            ctx.dist[f"bf_history:malformed-argument-outcome-differs:{kind}:model={want}:impl={got}"] += 1
+            note(ctx, f"malformed-bf:{kind}", f"a malformed argument is handled differently from the model (model {want}, code {got}); not alarmed on")
+
+
+def gen_bf_history(rng):
+    first = gen_bf_case(rng.fork(1))
+    steps = []
+    kinds = rng.shuffle(list(BF_REJECTS))
+    for j, kind in enumerate(kinds[: rng.randint(2, 4)]):
+        steps.append({"op": "reject", "kind": kind, "two_pass": rng.chance(0.5)})
+        c = gen_bf_case(rng.fork(10 + j), fixed=first)
+        steps.append({"op": "valid", "case": c})
+    return {"stream": "bf_history", "first": first, "steps": steps}
 
 
 # ---------------------------------------------------------------------------------------
 
 EVAL = {"unwrap": eval_unwrap_case, "edges": eval_edges_case, "uf": eval_uf_case, "bf": eval_bf_case,
         "order": eval_order_case, "bf_stack": eval_bf_stack_case,
-        "long": eval_long_case}
+        "long": eval_long_case, "history": eval_history_case, "uf_hist": eval_uf_hist_case, "bf_history": eval_bf_history_case}
 
 
 def run(ctx):
@@ -1348,6 +1989,14 @@ def run(ctx):
     torch.set_num_threads(2)
     drv = Driver("C17")
     try:
+        # FIRST: histories with rejected calls on grids of their own — before any other stream has called the module, so
+        # that a rejected call really is the first call of the process on its grid (module-level state, if any, starts empty)
+        for h in range(ctx.n(96, 600)):
+            eval_history_case(ctx, drv, gen_history(ctx.rng.fork(12_000_000 + h), h))
+        for h in range(ctx.n(30, 400)):
+            eval_bf_history_case(ctx, drv, gen_bf_history(ctx.rng.fork(13_000_000 + h)))
+        for h in range(ctx.n(150, 3000)):
+            eval_uf_hist_case(ctx, drv, gen_uf_hist_case(ctx.rng.fork(14_000_000 + h)))
         # method dispatch of unwrap_phase_2d_torch (the Poisson method is outside the claim; only the dispatch is looked at)
         iu = _iu()
         try:
